@@ -384,34 +384,6 @@ def run_case(ctx, case, d):
                             if bx_of.get(n_) is not None:
                                 adm_by_bx.setdefault(bx_of[n_], {(None, None, None)}).update((t[0], None, t[2]) for t in tg)
             linked_on = o.get("linked_read_distance_cutoff") is not None and not o.get("ignore_linked_read")
-            for mode, a in zip(MODES[:2], ans):
-                if "error" in a and a.get("tags") is None:
-                    ctx.disagree("c10.chrom", {"case": slim, "request": reqs[mode]}, "implementation succeeded", a)
-                    continue
-                for pos_, (k, mt) in enumerate(zip(idx_exp, a["tags"])):
-                    rec = cur[k]
-                    impl = list(rec["tagvals"])
-                    if impl == mt:
-                        continue
-                    if tuple(impl) in adm_by_name.get(rec["name"], ()) or (
-                            linked_on and rec["name"] not in adm_by_name and tuple(impl) in adm_by_bx.get(rec["bx"], ())):
-                        ctx.observe("read cloud with tied phase sets: the reported set depends on Python set order; implementation's "
-                                    "choice is one of the model's admissible decisions")
-                        continue
-                    what = (f"{'exchanged VCF, ' if swapped else ''}{chrom} {rec['name']} flag {rec['flag']}: haplotag wrote HP/PC/PS {impl}, "
-                            f"model on {mode} alleles {mt}")
-                    if mode == "detected":
-                        ctx.disagree("c10.chrom/detected-alleles", {"case": slim, "alignment": rec["name"], "chrom": chrom, "swapped": swapped}, impl, mt)
-                    else:
-                        # the alleles the generator put into the read give another decision than the ones whatshap saw
-                        det = reads_by_name["detected"].get(rec["name"]); tru = reads_by_name["truth"].get(rec["name"])
-                        if orig_tags is not None and orig_tags[pos_] == impl:
-                            ctx.fail("paired-end read: the alleles of the mate on the other strand are ignored (defect F12, create_read_from_group): "
-                                     + what + f"; read as assembled by whatshap {det[2] if det else None}, both mates {tru[2] if tru else None}",
-                                     slim, key="paired-mate-dropped")
-                        else:
-                            ctx.fail("tag does not follow from the alleles the read carries (ground truth): " + what +
-                                     f"; detected read {det[2] if det else None}, true read {tru[2] if tru else None}", slim, key="truth-alleles")
             # ---- property predicate, independent of the model
             for k in idx_exp:
                 rec = cur[k]
@@ -452,6 +424,35 @@ def run_case(ctx, case, d):
                                 key = "paired-mate-dropped"
                         ctx.fail(f"{'exchanged VCF, ' if swapped else ''}{chrom} {rec['name']} tagged HP={hp} PC={pc} PS={ps} but ({mode} alleles) {msg}",
                                  slim, key=key)
+            # ---- correspondence with the Lean model
+            for mode, a in zip(MODES[:2], ans):
+                if "error" in a and a.get("tags") is None:
+                    ctx.disagree("c10.chrom", {"case": slim, "request": reqs[mode]}, "implementation succeeded", a)
+                    continue
+                for pos_, (k, mt) in enumerate(zip(idx_exp, a["tags"])):
+                    rec = cur[k]
+                    impl = list(rec["tagvals"])
+                    if impl == mt:
+                        continue
+                    if tuple(impl) in adm_by_name.get(rec["name"], ()) or (
+                            linked_on and rec["name"] not in adm_by_name and tuple(impl) in adm_by_bx.get(rec["bx"], ())):
+                        ctx.observe("read cloud with tied phase sets: the reported set depends on Python set order; implementation's "
+                                    "choice is one of the model's admissible decisions")
+                        continue
+                    what = (f"{'exchanged VCF, ' if swapped else ''}{chrom} {rec['name']} flag {rec['flag']}: haplotag wrote HP/PC/PS {impl}, "
+                            f"model on {mode} alleles {mt}")
+                    if mode == "detected":
+                        ctx.disagree("c10.chrom/detected-alleles", {"case": slim, "alignment": rec["name"], "chrom": chrom, "swapped": swapped}, impl, mt)
+                    else:
+                        # the alleles the generator put into the read give another decision than the ones whatshap saw
+                        det = reads_by_name["detected"].get(rec["name"]); tru = reads_by_name["truth"].get(rec["name"])
+                        if orig_tags is not None and orig_tags[pos_] == impl:
+                            ctx.fail("paired-end read: the alleles of the mate on the other strand are ignored (defect F12, create_read_from_group): "
+                                     + what + f"; read as assembled by whatshap {det[2] if det else None}, both mates {tru[2] if tru else None}",
+                                     slim, key="paired-mate-dropped")
+                        else:
+                            ctx.fail("tag does not follow from the alleles the read carries (ground truth): " + what +
+                                     f"; detected read {det[2] if det else None}, true read {tru[2] if tru else None}", slim, key="truth-alleles")
         final[("amb", swapped)] = ambiguous_names
 
     # ---- symmetry
